@@ -160,12 +160,17 @@ impl Expression {
             | Self::Float(_)
             | Self::Integer(_)
             | Self::Null => false,
+            // NOTE: The operands of a conjunction, disjunction or negation are handed to the
+            // solver as is, so they must be solvable too.
+            Self::BooleanExpression(left, BoolSym::And | BoolSym::Or, right) => {
+                left.is_solvable() && right.is_solvable()
+            }
+            Self::Negate(expression) => expression.is_solvable(),
             Self::BooleanGroup(_, _)
             | Self::BooleanExpression(_, _, _)
             | Self::Identifier(_)
             | Self::Match(_, _)
             | Self::Matrix(_, _)
-            | Self::Negate(_)
             | Self::Nested(_, _)
             | Self::Search(_, _, _) => true,
         }
